@@ -45,7 +45,7 @@ type Nreconc struct {
 // Call the function with the arguments provided.
 func (f *Nreconc) Call(s *slip.Scope, args slip.List, depth int) slip.Object {
 	slip.CheckArgCount(s, depth, f, args, 2, 2)
-	list, ok := args[0].(slip.List)
+	list, ok := listArg(args[0])
 	if !ok {
 		slip.TypePanic(s, depth, "list", args[0], "list")
 	}
@@ -56,6 +56,8 @@ func (f *Nreconc) Call(s *slip.Scope, args slip.List, depth int) slip.Object {
 		}
 	}
 	switch ta := args[1].(type) {
+	case nil:
+		// a tail of nil ends the list
 	case slip.List:
 		list = append(list, ta...)
 	default:
